@@ -81,7 +81,27 @@ func (ra *resetAn) written(fn *ssa.Function, obj ssa.Value, at ssa.Instruction) 
 				return
 			}
 			fa, ok := x.Addr.(*ssa.FieldAddr)
-			if !ok || !isObj(fa.X) {
+			if !ok {
+				return
+			}
+			// obj.F.G = v : a store into a struct-typed field; F counts as reset once all of its fields are written
+			if outer, ok := fa.X.(*ssa.FieldAddr); ok && isObj(outer.X) {
+				fname := fieldOf(outer).Name()
+				f["sub:"+fname+"."+fieldOf(fa).Name()] = true
+				if st2, ok := fieldOf(outer).Type().Underlying().(*types.Struct); ok {
+					complete := true
+					for i := 0; i < st2.NumFields(); i++ {
+						if !f["sub:"+fname+"."+st2.Field(i).Name()] {
+							complete = false
+						}
+					}
+					if complete {
+						f[fname] = true
+					}
+				}
+				return
+			}
+			if !isObj(fa.X) {
 				return
 			}
 			name := fieldOf(fa).Name()
